@@ -1,4 +1,5 @@
-(* C20 - Mech model of the foreign-function interface of the Cb interpreter.
+(* C20 - Mech model of the foreign-function interface of the Cb interpreter (code state: after the fix commits
+   0c197b6 1309e2f 7ec0e3a ccde50e 000c633).
 
    Mirrors, function by function:
      src/backend/interpreter/ffi_manager.cpp   FFIManager::loadLibrary / registerFunction /
